@@ -30,6 +30,7 @@ FMTS = {
     "no": ("model.pt", "optim.pt", False, False),
     "mo": ("model_{epoch}.pt", "optim.pt", True, False),
     "om": ("model.pt", "optim_{epoch:02d}.pt", False, True),
+    "sd": ("m/{epoch}.pt", "o/{epoch:02d}.pt", True, True),           # sub-directories of state_dir, one per kind
 }
 PARTS = ["hist_prefix", "load_last", "load_best", "final_hist", "dir_has", "dir_only", "load_all"]
 SCALE = 4.0  # metrics are k/4: exact under the "{:.4e}" formatting of get_best_epoch
@@ -51,9 +52,17 @@ def _name_re(fmt):
 
 
 class Names:
-    def __init__(self, fmt):
+    def __init__(self, fmt, root=None):
         fm, fo, self.em, self.eo = FMTS[fmt]
         self.rm, self.ro = _name_re(fm), _name_re(fo)
+        self.root = os.path.abspath(root) if root else None
+
+    def key(self, path):
+        """path handed to a file-system call -> ("M"|"O", epoch|None) or None; names are relative to state_dir"""
+        a = os.path.abspath(os.fspath(path))
+        if self.root and a.startswith(self.root + os.sep):
+            return self.parse(os.path.relpath(a, self.root).replace(os.sep, "/"))
+        return self.parse(os.path.basename(a))
 
     def parse(self, name):
         """file name -> ("M"|"O", epoch|None) or None for anything else (temporary files)"""
@@ -64,18 +73,21 @@ class Names:
         return None
 
     def listing(self, d):
-        names = sorted(os.listdir(d)) if os.path.isdir(d) else []
-        ck = [self.parse(n) for n in names]
+        names = []
+        for top, _, files in (os.walk(d) if d is not None and os.path.isdir(d) else []):
+            names += [os.path.relpath(os.path.join(top, f), d).replace(os.sep, "/") for f in files]
+        ck = [self.parse(n) for n in sorted(names)]
         return [c for c in ck if c is not None], sum(1 for c in ck if c is None)
 
 
 class Injector:
     """counts file-system mutating calls, logs them, raises Crash instead of the k-th"""
 
-    def __init__(self, names, csv_path, crash_at):
-        self.names, self.csv, self.crash_at = names, os.path.abspath(csv_path), crash_at
+    def __init__(self, names, csv_path, crash_at, fault_rems=()):
+        self.names, self.csv, self.crash_at = names, os.path.abspath(csv_path or "/nonexistent/none.csv"), crash_at
         self.n = 0
         self.cur = None  # log of the current update call
+        self.fault_rems, self.nrem, self.stuck = set(fault_rems), 0, []   # os.remove calls that fail (EACCES)
 
     def tick(self, what):
         if self.cur is None:  # not inside update_for_epoch (lazy imports of torch, ...)
@@ -90,11 +102,16 @@ class Injector:
         r_replace, r_remove, r_save, r_open, r_ntf = os.replace, os.remove, torch.save, builtins.open, tempfile.NamedTemporaryFile
 
         def replace(src, dst, *a, **k):
-            inj.tick(["rep", inj.names.parse(os.path.basename(dst))])
+            inj.tick(["rep", inj.names.key(dst)])
             return r_replace(src, dst, *a, **k)
 
         def remove(p, *a, **k):
-            inj.tick(["rem", inj.names.parse(os.path.basename(p))])
+            inj.tick(["rem", inj.names.key(p)])
+            if inj.cur is not None:
+                inj.nrem += 1
+                if inj.nrem - 1 in inj.fault_rems:   # a file the process may not delete (read-only / foreign owner)
+                    inj.stuck.append(inj.names.key(p))
+                    raise PermissionError(13, "Permission denied", os.fspath(p))
             return r_remove(p, *a, **k)
 
         def save(obj, f, *a, **k):
@@ -163,16 +180,58 @@ def _params(case):
                                saved_optimizer_fmt=fo, **case.get("ctl", {}))
 
 
-def _controller(params, csvp, sd):
+def _controller(params, csvp, sd, entry=True):
     from pydrobert.torch.training import TrainingStateController
     c = TrainingStateController(params, csvp, sd, warn=False)
-    c.add_entry("tag", int)
+    if entry:
+        c.add_entry("tag", int)
     return c
 
 
-def _observe(case, params, names, csvp, sd, outcome, log, notes):
-    """what a controller started now on the files sees"""
-    c = _controller(params, csvp, sd)
+def _load_all(c, last, notes):
+    """[epoch, value the model file gives | None, value the optimizer file gives | None] for 1..last, through both load
+    functions (epoch positional / keyword)"""
+    loads = []
+    for e in range(1, last + 1):
+        vm = vo = None
+        both = False
+        if e in c.cache_hist:
+            m, o = _mk(-7)
+            try:
+                c.load_model_for_epoch(m, e)
+                vm = int(m.weight.item())
+            except Exception:
+                vm = None
+            m2, o2 = _mk(-7)
+            try:
+                if e % 2:
+                    c.load_model_and_optimizer_for_epoch(m2, o2, e)
+                else:
+                    c.load_model_and_optimizer_for_epoch(m2, o2, epoch=e)
+                both = True
+                vo = int(o2.param_groups[0].get("vtag"))
+                if int(m2.weight.item()) != vm:
+                    notes.append("load_model_for_epoch and load_model_and_optimizer_for_epoch disagree at epoch %d" % e)
+            except Exception:
+                # which of the two files is the unusable one?
+                try:
+                    sdict = torch.load(c.get_optimizer_path_with_info(c.get_info(e)), map_location="cpu")
+                    vo = int(sdict["param_groups"][0].get("vtag"))
+                except Exception:
+                    vo = None
+            if both != (vm is not None and vo is not None):
+                notes.append("combined load success %r inconsistent with separate loads at epoch %d" % (both, e))
+        loads.append([e, vm, vo])
+    return loads
+
+
+def _observe(case, params, names, csvp, sd, outcome, log, notes, c=None, entry=True):
+    """what a controller started now on the files sees (c given: a controller that was created earlier, kept alive
+    while other controllers wrote, and refreshed with update_cache(); entry False: one that never called add_entry)"""
+    if c is None:
+        c = _controller(params, csvp, sd, entry)
+    else:
+        c.update_cache()
     rows = []
     if os.path.exists(csvp):
         with open(csvp) as f:
@@ -188,45 +247,33 @@ def _observe(case, params, names, csvp, sd, outcome, log, notes):
     cached = sorted(e for e in c.cache_hist if e)
     if cached != sorted(set(r[0] for r in rows)):
         notes.append("cache epochs %r differ from CSV epochs" % (cached,))
-    loads = []
-    for e in range(1, last + 1):
-        vm = vo = None
-        both = False
-        if e in c.cache_hist:
-            m, o = _mk(-7)
-            try:
-                c.load_model_for_epoch(m, e)
-                vm = int(m.weight.item())
-            except Exception:
-                vm = None
-            m2, o2 = _mk(-7)
-            try:
-                c.load_model_and_optimizer_for_epoch(m2, o2, e)
-                both = True
-                vo = int(o2.param_groups[0].get("vtag"))
-                if int(m2.weight.item()) != vm:
-                    notes.append("load_model_for_epoch and load_model_and_optimizer_for_epoch disagree at epoch %d" % e)
-            except Exception:
-                # which of the two files is the unusable one?
-                try:
-                    sdict = torch.load(c.get_optimizer_path_with_info(c.get_info(e)), map_location="cpu")
-                    vo = int(sdict["param_groups"][0].get("vtag"))
-                except Exception:
-                    vo = None
-            if both != (vm is not None and vo is not None):
-                notes.append("combined load success %r inconsistent with separate loads at epoch %d" % (both, e))
-        loads.append([e, vm, vo])
+    tag_of = {r[0]: r[3] for r in rows}
+    if entry:   # add_entry after epochs exist: the user entry of every recorded epoch is read back
+        for e in cached:
+            if c.get_info(e).get("tag") != tag_of.get(e):
+                notes.append("get_info(%d)['tag'] = %r, the CSV row says %r" % (e, c.get_info(e).get("tag"), tag_of.get(e)))
+    loads = _load_all(c, last, notes)
     # default arguments: last epoch / best epoch (validation metric)
     if last and loads[last - 1][1] is not None and loads[last - 1][2] is not None:
         m, o = _mk(-7)
         c.load_model_and_optimizer_for_epoch(m, o)
         if [int(m.weight.item()), int(o.param_groups[0].get("vtag"))] != loads[last - 1][1:]:
             notes.append("load_model_and_optimizer_for_epoch() without epoch did not give the last epoch")
-    if not case["bt"] and best and loads[best - 1][1] is not None:
+    bestv = best if not case["bt"] else int(c.get_best_epoch())
+    if bestv and loads[bestv - 1][1] is not None:
         m, o = _mk(-7)
         c.load_model_for_epoch(m)
-        if int(m.weight.item()) != loads[best - 1][1]:
-            notes.append("load_model_for_epoch() without epoch did not give the best epoch")
+        if int(m.weight.item()) != loads[bestv - 1][1]:
+            notes.append("load_model_for_epoch() without epoch did not give the best epoch (validation metric)")
+    if last and sd is not None:
+        # epoch 0 given explicitly is "the beginning of the experiment", not "unset": no checkpoint is loaded
+        vals = set(v for l in loads for v in l[1:] if v is not None)
+        m, o = _mk(-7)
+        c.load_model_for_epoch(m, 0)
+        m2, o2 = _mk(-7)
+        c.load_model_and_optimizer_for_epoch(m2, o2, 0)
+        if float(m.weight.item()) in vals or float(m2.weight.item()) in vals or int(o2.param_groups[0].get("vtag")) != -7:
+            notes.append("loading epoch 0 explicitly loaded a checkpoint")
     ck, nt = names.listing(sd)
     return {"outcome": outcome, "hist": rows, "last": last, "best": best, "loads": loads,
             "ckpts": ck, "ntmp": nt, "log": log}
@@ -245,29 +292,85 @@ def _met(case, e, j):
     return x
 
 
-def _process(case, params, names, csvp, sd, ctr, crash_at, calls):
-    """one process: new controller, continue after the last recorded epoch"""
+def _watch(case, w, e, tag, notes):
+    """a second controller on the same files, alive since the process started: after a completed update (keep last and
+    best) it refreshes its cache and must load the last epoch (default arguments) and the best one"""
+    w.update_cache()
+    if int(w.get_last_epoch()) != e:
+        notes.append("a controller kept alive sees last epoch %r after update_cache(), epoch %d was just recorded" % (w.get_last_epoch(), e))
+        return
+    try:
+        m, o = _mk(-7)
+        w.load_model_and_optimizer_for_epoch(m, o)
+        got = [int(m.weight.item()), int(o.param_groups[0].get("vtag"))]
+        if got != [tag, tag]:
+            notes.append("after the completed update of epoch %d a second controller loads %r for the last epoch, saved was %d" % (e, got, tag))
+        b = int(w.get_best_epoch(bool(case["bt"])))
+        m, o = _mk(-7)
+        w.load_model_and_optimizer_for_epoch(m, o, b)
+        got, want = [int(m.weight.item()), int(o.param_groups[0].get("vtag"))], w.get_info(b)["tag"]
+        if got != [want, want]:
+            notes.append("after the completed update of epoch %d a second controller loads %r for the best epoch %d, saved was %d" % (e, got, b, want))
+    except Exception as ex:
+        notes.append("after the completed update of epoch %d a second controller cannot load last/best: %s" % (e, exc_kind(ex)))
+
+
+def _process(case, params, names, csvp, sd, ctr, crash_at, calls, notes, fault_rems=(), live=None):
+    """one process: new controller, continue after the last recorded epoch.  case["drv"] varies HOW the process drives
+    the controller (all variants are the same logical run): "ep" = epoch passed explicitly (kw / pos / mix), "refresh" =
+    update_cache() ("uc") or add_entry again ("ae") before every update, "two" = two controllers take turns,
+    "watch" = a further controller stays alive and loads after every completed update"""
     mets = case["mets"]
+    drv = case.get("drv") or {}
+    bt = bool(case["bt"])
     log = []
-    inj = Injector(names, csvp, crash_at)
+    inj = Injector(names, csvp, crash_at, fault_rems)
     outcome = "Done"
-    c = _controller(params, csvp, sd)
+    ctls = [_controller(params, csvp, sd)]
+    if drv.get("two"):
+        ctls.append(_controller(params, csvp, sd))
+    watcher = _controller(params, csvp, sd) if drv.get("watch") and case["klb"] else None
+    if live is not None:
+        live.append(ctls[0])
+    n = 0
     try:
         with inj:
-            while c.continue_training():
+            while True:
+                c = ctls[n % len(ctls)]
+                if len(ctls) > 1 and n:
+                    c.update_cache()
+                if drv.get("refresh") == "uc":
+                    c.update_cache()
+                elif drv.get("refresh") == "ae":
+                    c.add_entry("tag", int)
+                if not c.continue_training():
+                    break
                 e = c.get_last_epoch() + 1
                 if e > len(mets):
                     break
+                if n > len(mets):
+                    raise RuntimeError("the training loop makes no progress: epoch %d again after %d updates" % (e, n))
+                n += 1
                 ctr[0] += 1
                 m, o = _mk(ctr[0])
                 inj.cur = []
                 calls.append(inj.cur)
                 entry = [inj.cur, None]
                 log.append(entry)
-                cont = c.update_for_epoch(m, o, _met(case, e, 0), _met(case, e, 1),
-                                          best_is_train=bool(case["bt"]), tag=ctr[0])
+                tr, va = _met(case, e, 0), _met(case, e, 1)
+                how = drv.get("ep")
+                if how == "mix":
+                    how = "kw" if n % 2 else None
+                if how == "kw":
+                    cont = c.update_for_epoch(m, o, tr, va, epoch=e, best_is_train=bt, tag=ctr[0])
+                elif how == "pos":
+                    cont = c.update_for_epoch(m, o, tr, va, e, bt, tag=ctr[0])
+                else:
+                    cont = c.update_for_epoch(m, o, tr, va, best_is_train=bt, tag=ctr[0])
                 entry[1] = list(names.listing(sd))
                 inj.cur = None
+                if watcher is not None:
+                    _watch(case, watcher, e, ctr[0], notes)
                 if not cont:
                     break
     except Crash:
@@ -278,7 +381,38 @@ def _process(case, params, names, csvp, sd, ctr, crash_at, calls):
         if calls and calls[-1]:
             log.append([calls[-1], None])
             outcome = "Raised-after-calls"
-    return outcome, log
+    return outcome, log, inj
+
+
+def _janitor(case, params, names, csvp, sd, jcrash, notes):
+    """at a (re)start: a fresh controller calls delete_model_and_optimizer_for_epoch for every recorded epoch that is
+    neither the last nor the best one, and for epochs that were never recorded (must do nothing); with jcrash = k it
+    dies instead of its (k+1)-th os.remove and another fresh controller does the same again.  Returns the epochs."""
+    before, nt0 = names.listing(sd)
+    vs = []
+    for budget in ([jcrash, None] if jcrash is not None else [None]):
+        c = _controller(params, csvp, sd, entry=budget is None)
+        last, best = int(c.get_last_epoch()), int(c.get_best_epoch(bool(case["bt"])))
+        vs = [e for e in sorted(c.cache_hist) if e and e not in (last, best)]
+        todo = [last + 1] + vs + [0, last + 7]
+        if case["jan"].get("rev"):
+            todo.reverse()
+        inj = Injector(names, csvp, budget)
+        inj.cur = []
+        try:
+            with inj:
+                for e in todo:
+                    if c.delete_model_and_optimizer_for_epoch(e) is not None:
+                        notes.append("delete_model_and_optimizer_for_epoch returned a value")
+            break
+        except Crash:
+            continue
+    after, nt1 = names.listing(sd)
+    want = [p for p in before if p[1] not in vs]
+    if sorted(map(tuple, after)) != sorted(map(tuple, want)) or nt0 != nt1:
+        notes.append("delete_model_and_optimizer_for_epoch for the epochs %r (+ never recorded %r) turned the directory %r into %r, "
+                     "expected %r; other files %d -> %d" % (vs, [last + 1, 0, last + 7], before, after, want, nt0, nt1))
+    return vs
 
 
 def run_schedule_impl(case, workdir, crashes):
@@ -286,11 +420,19 @@ def run_schedule_impl(case, workdir, crashes):
     d = tempfile.mkdtemp(dir=str(workdir), prefix="run")
     try:
         csvp, sd = os.path.join(d, "hist.csv"), os.path.join(d, "states")
-        params, names = _params(case), Names(case["fmt"])
+        params, names = _params(case), Names(case["fmt"], sd)
+        drv, jan = case.get("drv") or {}, case.get("jan")
+        keeper = _controller(params, csvp, sd) if drv.get("obs") == "kept" else None
         ctr, calls, notes, obs = [0], [], [], []
-        for k in list(crashes) + [None]:
-            outcome, log = _process(case, params, names, csvp, sd, ctr, k, calls)
-            obs.append(_observe(case, params, names, csvp, sd, outcome, log, notes))
+        deleted = set()
+        for pi, k in enumerate(list(crashes) + [None]):
+            outcome, log, _ = _process(case, params, names, csvp, sd, ctr, k, calls, notes)
+            if jan is not None:
+                jc = jan.get("crash", [])
+                deleted |= set(_janitor(case, params, names, csvp, sd, jc[pi] if pi < len(jc) else None, notes))
+            obs.append(_observe(case, params, names, csvp, sd, outcome, log, notes, c=keeper, entry=drv.get("obs") != "noentry"))
+            if jan is not None:
+                obs[-1]["deleted"] = sorted(deleted)
             if outcome != "Crashed":
                 break
         ros = [[op[1] for op in call if op[0] == "rem"] for call in calls]
@@ -300,6 +442,16 @@ def run_schedule_impl(case, workdir, crashes):
 
 
 _UNINT = {}
+BASE_KEYS = ("klb", "fmt", "bt", "ctl", "mets", "jit")
+
+
+def _base(case, **kw):
+    """the plain logical run of a case: parameters and metric history only"""
+    b = {k: case[k] for k in BASE_KEYS if k in case}
+    b.setdefault("ctl", {})
+    b.update(kw)
+    b["crashes"] = []
+    return b
 
 
 def _base_key(case):
@@ -312,8 +464,170 @@ def _unint(case, workdir):
     if k not in _UNINT:
         if len(_UNINT) > 2000:
             _UNINT.clear()
-        _UNINT[k] = run_schedule_impl(case, workdir, [])
+        _UNINT[k] = run_schedule_impl(_base(case), workdir, [])
     return _UNINT[k]
+
+
+def _split_trace(ops):
+    """calls of one update: everything but the removals in order, the removed paths as a sorted list (set iteration
+    order differs between two runs in different directories)"""
+    return [op for op in ops if op[0] != "rem"], sorted(json.dumps(op[1]) for op in ops if op[0] == "rem")
+
+
+def _hrows(rows):
+    return [r[:3] for r in rows]
+
+
+def _py_best(rows, bt):
+    col = 1 if bt else 2
+    return min(rows, key=lambda r: (r[col], r[0]))[0] if rows else 0
+
+
+def run_nofiles(case, workdir):
+    """controller without a state directory (nf = "sd"), without a history file ("csv") or without both ("both"):
+    judged against the plain run of the same parameters and metrics.  "sd": the history after every death is a prefix
+    of, and at the end equal to, the plain history; the only file-system call of an update is the append; loading and
+    deleting do nothing.  "csv": same calls as the plain run minus the append, same directory after every update, the
+    live controller loads what the plain run's files hold.  "both": no file-system call at all."""
+    nf = case["nf"]
+    notes = []
+    ref = _unint(_base(case, fmt="ep", klb=False), workdir)     # the history these metrics and C15 settings give
+    H = ref[0][0]["hist"]
+    d = tempfile.mkdtemp(dir=str(workdir), prefix="run")
+    try:
+        csvp = None if nf in ("csv", "both") else os.path.join(d, "hist.csv")
+        sd = None if nf in ("sd", "both") else os.path.join(d, "states")
+        params, names = _params(case), Names(case["fmt"], sd)
+        ctr, calls, obs = [0], [], []
+        crashes = list(case["crashes"]) if nf == "sd" else []
+        for k in crashes + [None]:
+            live = []
+            outcome, log, _ = _process(case, params, names, csvp, sd, ctr, k, calls, notes, live=live)
+            if nf == "sd":
+                o = _observe(case, params, names, csvp, None, outcome, log, notes)
+                # _observe's loads went through both load functions: without a state directory they leave the model alone
+                if any(l[1] not in (None, -7) or l[2] not in (None, -7) for l in o["loads"]):
+                    notes.append("loading without a state directory changed the model / optimizer: %r" % (o["loads"],))
+                c = _controller(params, csvp, None)
+                for e in range(0, o["last"] + 2):
+                    if c.delete_model_and_optimizer_for_epoch(e) is not None:
+                        notes.append("delete_model_and_optimizer_for_epoch returned a value")
+                if _hrows(o["hist"]) != _hrows(H)[:len(o["hist"])]:
+                    notes.append("history %r without a state directory is not a prefix of %r" % (o["hist"], H))
+                if o["last"] != max([r[0] for r in o["hist"]] + [0]) or o["best"] != _py_best(o["hist"], case["bt"]):
+                    notes.append("last/best %r/%r do not fit the history %r" % (o["last"], o["best"], o["hist"]))
+                if any(ops != [["app"]] for ops, lst in log if lst is not None) or outcome not in ("Done", "Crashed"):
+                    notes.append("update without a state directory: outcome %s, calls %r" % (outcome, [ops for ops, _ in log]))
+                o["loads"] = [[l[0], None, None] for l in o["loads"]]
+            else:
+                c = live[0]
+                last, best = int(c.get_last_epoch()), int(c.get_best_epoch(bool(case["bt"])))
+                loads = _load_all(c, last, notes)
+                ck, nt = names.listing(sd)
+                o = {"outcome": outcome, "hist": [], "last": last, "best": best, "loads": loads, "ckpts": ck, "ntmp": nt, "log": log}
+            obs.append(o)
+            if outcome != "Crashed":
+                break
+        fin = obs[-1]
+        left = sorted(os.listdir(d))
+        if nf == "sd":
+            if fin["outcome"] != "Done" or _hrows(fin["hist"]) != _hrows(H):
+                notes.append("final history %r (%s) without a state directory differs from %r" % (fin["hist"], fin["outcome"], H))
+            if [x for x in left if x != "hist.csv"]:
+                notes.append("files appeared although state_dir is None: %r" % (left,))
+        else:
+            plain = _unint(_base(case), workdir) if nf == "csv" else ref
+            p = plain[0][0]
+            if nf == "both":
+                if left or any(ops for ops, _ in fin["log"]):
+                    notes.append("file-system calls / files without state_dir and state_csv_path: %r %r" % (fin["log"], left))
+                if fin["outcome"] != "Done" or [fin["last"], fin["best"]] != [p["last"], p["best"]]:
+                    notes.append("controller without files: %s, last/best %r, the plain run has %r" % (fin["outcome"], [fin["last"], fin["best"]], [p["last"], p["best"]]))
+                if any(l[1] != -7 or l[2] != -7 for l in fin["loads"]):
+                    notes.append("loading without a state directory changed the model / optimizer: %r" % (fin["loads"],))
+            else:
+                if [x for x in left if x != "states"]:
+                    notes.append("files appeared although state_csv_path is None: %r" % (left,))
+                if fin["outcome"] != p["outcome"]:
+                    notes.append("outcome %s without a history file, %s with one" % (fin["outcome"], p["outcome"]))
+                mine = [(_split_trace(ops), None if lst is None else [sorted(map(tuple, lst[0])), lst[1]]) for ops, lst in fin["log"]]
+                theirs = [(_split_trace([op for op in ops if op[0] != "app"]), None if lst is None else [sorted(map(tuple, lst[0])), lst[1]])
+                          for ops, lst in p["log"]]
+                if mine != theirs:
+                    notes.append("calls / directory per update without a history file %r differ from the plain run's (append removed) %r" % (mine, theirs))
+                if fin["outcome"] == "Done" and ([fin["last"], fin["best"]] != [p["last"], p["best"]] or fin["loads"] != p["loads"]):
+                    notes.append("live controller without a history file: last/best/loads %r, the plain run has %r" %
+                                 ([fin["last"], fin["best"], fin["loads"]], [p["last"], p["best"], p["loads"]]))
+        return {"unint": ref[0][0], "n_calls": ctr[0], "obs": obs, "ros": [], "notes": sorted(set(notes))}
+    finally:
+        shutil.rmtree(d, ignore_errors=True)
+
+
+def run_remfault(case, workdir):
+    """keep last and best, no crash, but the os.remove calls number case["fault"] fail with PermissionError (a file the
+    process may not delete): _clean_up_files warns and goes on.  Judged against the plain run: same history, same calls,
+    same loads, and the directory after every update = the plain run's + exactly the files that could not be deleted."""
+    notes = []
+    plain = _unint(_base(case), workdir)
+    p = plain[0][0]
+    d = tempfile.mkdtemp(dir=str(workdir), prefix="run")
+    try:
+        csvp, sd = os.path.join(d, "hist.csv"), os.path.join(d, "states")
+        params, names = _params(case), Names(case["fmt"], sd)
+        ctr, calls = [0], []
+        outcome, log, inj = _process(case, params, names, csvp, sd, ctr, None, calls, notes, fault_rems=case["fault"])
+        o = _observe(case, params, names, csvp, sd, outcome, log, notes)
+        stuck_all = [tuple(x) for x in inj.stuck if x is not None]
+        if len(stuck_all) != len(inj.stuck):
+            notes.append("os.remove of a file that is no checkpoint: %r" % (inj.stuck,))
+        if [o["outcome"], o["hist"], o["last"], o["best"]] != [p["outcome"], p["hist"], p["last"], p["best"]]:
+            notes.append("a failing os.remove changed outcome/history/last/best: %r, plain run %r" %
+                         ([o["outcome"], o["hist"], o["last"], o["best"]], [p["outcome"], p["hist"], p["last"], p["best"]]))
+        if len(log) != len(p["log"]):
+            notes.append("a failing os.remove changed the number of update calls")
+        nrem, stuck = 0, set()
+        for (ops, lst), (pops, plst) in zip(log, p["log"]):
+            if _split_trace(ops) != _split_trace(pops):
+                notes.append("a failing os.remove changed the calls of an update: %r, plain run %r" % (ops, pops))
+            for op in ops:
+                if op[0] == "rem":
+                    if nrem in case["fault"] and op[1] is not None:
+                        stuck.add(tuple(op[1]))
+                    nrem += 1
+            if lst is not None and plst is not None:
+                want = sorted(set(map(tuple, plst[0])) | stuck)
+                if sorted(map(tuple, lst[0])) != want or lst[1] != plst[1]:
+                    notes.append("directory after an update %r (+%d other files), expected the plain run's plus the undeletable files: %r (+%d)" %
+                                 (lst[0], lst[1], want, plst[1]))
+        if sorted(stuck) != sorted(set(stuck_all)):
+            notes.append("undeletable files %r, removals that failed %r" % (sorted(stuck), stuck_all))
+        for l, pl in zip(o["loads"], p["loads"]):
+            for j, kind in ((1, "M"), (2, "O")):
+                if pl[j] is not None and l[j] != pl[j]:
+                    notes.append("a failing os.remove changed what epoch %d loads: %r, plain run %r" % (l[0], l, pl))
+        return {"unint": p, "n_calls": ctr[0], "obs": [o], "ros": [], "notes": sorted(set(notes + plain[2])),
+                "stuck": sorted(stuck)}
+    finally:
+        shutil.rmtree(d, ignore_errors=True)
+
+
+def _jan_notes(case, out):
+    """janitor runs: python-side relations (the rest is judged by PV.C16.Spec)"""
+    notes = []
+    nt = 0
+    for o in out["obs"]:
+        for ops, lst in o["log"]:
+            if lst is not None and lst[1] != nt:
+                notes.append("a completed update changed the number of non-checkpoint files: %d -> %d" % (nt, lst[1]))
+        nt = o["ntmp"]
+        if not case["klb"]:
+            rec = set(r[0] for r in o["hist"])
+            for e, vm, vo in o["loads"]:
+                if e in rec and e not in o["deleted"] and (vm is None or vo is None):
+                    notes.append("keep-all: epoch %d is recorded, was never deleted, and does not load (%r, %r)" % (e, vm, vo))
+                if e in o["deleted"] and (vm is not None or vo is not None):
+                    notes.append("epoch %d still loads (%r, %r) after delete_model_and_optimizer_for_epoch" % (e, vm, vo))
+    return notes
 
 
 def run_impl(case, workdir):
@@ -321,12 +635,19 @@ def run_impl(case, workdir):
     with warnings.catch_warnings():
         warnings.simplefilter("ignore")
         try:
+            if case.get("kind") == "nofiles":
+                return run_nofiles(case, workdir)
+            if case.get("kind") == "remfault":
+                return run_remfault(case, workdir)
             u_obs, u_ros, u_notes, u_calls = _unint(case, workdir)
-            if case["crashes"]:
+            if case["crashes"] or case.get("drv") or case.get("jan"):
                 obs, ros, notes, _ = run_schedule_impl(case, workdir, case["crashes"])
             else:
                 obs, ros, notes = u_obs, u_ros, list(u_notes)
-            return {"unint": u_obs[0], "n_calls": u_calls, "obs": obs, "ros": ros, "notes": sorted(set(notes + u_notes))}
+            out = {"unint": u_obs[0], "n_calls": u_calls, "obs": obs, "ros": ros, "notes": sorted(set(notes + u_notes))}
+            if case.get("jan"):
+                out["notes"] = sorted(set(out["notes"] + _jan_notes(case, out)))
+            return out
         except Exception as e:  # not a legal outcome of any run
             return {"error": exc_kind(e) + ": " + str(e)[:200]}
 
@@ -387,9 +708,17 @@ def model_args(case, out):
                             cl([cn(k) for k in case["crashes"]]))
 
 
+def relation_only(case):
+    """cases judged by relations / by the Spec alone: PV.C16.Model.run does not describe them (no state directory or
+    history file, an os.remove that fails, files deleted between the processes)"""
+    return bool(case.get("kind") or case.get("jan"))
+
+
 def model_term(case, out):
     if "error" in out or any(o["outcome"] == "Raised-after-calls" for o in out["obs"]):
         return "false"
+    if relation_only(case):
+        return "true"
     return "check %s %s" % (model_args(case, out), cl([t_obs(o) for o in out["obs"]]))
 
 
@@ -409,7 +738,7 @@ def source_tie(chk, cases, outs, model_ok):
     """run the translated source inside Coq on (a sample of) the runs of this check: validates translator + MiniPy
     semantics + ext16 against CPython's recorded traces; independent of whether the tie lemmas still compile.
     Only runs the model reproduces are used (a run the model misses is reported by the correspondence itself)."""
-    idx = [i for i, ok in enumerate(model_ok) if ok and "error" not in outs[i]]
+    idx = [i for i, ok in enumerate(model_ok) if ok and "error" not in outs[i] and not relation_only(cases[i])]
     cap = 4000 if chk.tier == "thorough" else 1500
     if len(idx) > cap:       # deterministic slice: every k-th run, all streams and both modes stay represented
         step = len(idx) / float(cap)
@@ -424,7 +753,7 @@ def source_tie(chk, cases, outs, model_ok):
     chk.extra["source_tie_run"] = {"runs": len(idx), "update_calls": calls, "disagreements": len(bad)}
     # diagnosis only: runs the model misses - does the interpreted source reproduce them?  (yes = the source text itself
     # changed behaviour and the translation tracks it; the correspondence reports those runs)
-    miss = [i for i, ok in enumerate(model_ok) if not ok and "error" not in outs[i]][:200]
+    miss = [i for i, ok in enumerate(model_ok) if not ok and "error" not in outs[i] and not relation_only(cases[i])][:200]
     if miss:
         try:
             mres = coq_eval_bools(chk.workdir, IMPORTS_SRC, [src_term(cases[i], outs[i]) for i in miss], shard=100, tag="srcm")
@@ -448,8 +777,20 @@ def source_tie(chk, cases, outs, model_ok):
 def spec_term(case, out, part=None):
     if "error" in out:
         return "false"
+    if case.get("kind"):        # judged in python against the plain run (notes)
+        return "true"
     H = cl([t_row(r) for r in out["unint"]["hist"]])
     os_ = cl([t_obs(o) for o in out["obs"]])
+    if case.get("jan"):
+        # files of recorded epochs other than last and best are deleted at every (re)start: every clause must hold,
+        # "nothing else" with the temporary files of interrupted saves (K6, which nothing collects) left out of the
+        # count - they are pinned by _jan_notes; keep-all: "every recorded epoch loads" is judged there as well
+        os0 = cl([t_obs(dict(o, log=[[ops, None if lst is None else [lst[0], 0]] for ops, lst in o["log"]])) for o in out["obs"]])
+        js = [j for j in range(len(PARTS)) if not (j == 6 and not case["klb"])]
+        if part is not None:
+            return "spec_part %s %s %s %s" % (cn(part), t_params(case), H, os0 if part == 5 else os_) if part in js else "true"
+        return ("(let P := %s in let H := %s in let os := %s in let os0 := %s in forallb (fun j => spec_part j P H (if Nat.eqb j 5 then os0 else os)) %s)"
+                % (t_params(case), H, os_, os0, cl([cn(j) for j in js])))
     if part is None:
         return "spec_okb %s %s %s" % (t_params(case), H, os_)
     return "spec_part %s %s %s %s" % (cn(part), t_params(case), H, os_)
@@ -544,6 +885,13 @@ def part_groups(parts):
 
 def signature_fn(entry, rec):
     sig, case, out = entry["signature"], rec["case"], rec["impl"]
+    if relation_only(case):
+        return False    # those streams are built so that no known finding shows
+    if rec.get("model_agrees") is not True:
+        # every known finding is a behaviour of the unchanged code that PV.C16.Model reproduces observation by
+        # observation (and proves: Witness.v).  Observations the model does not predict are something else, whatever
+        # clauses they fail and whatever the crash points look like.
+        return False
     failing = set(rec["failing_parts"])
     if not failing or not failing <= set(sig["failing_parts_subset_of"]):
         return False
@@ -628,14 +976,59 @@ def gen_cases(chk):
     rng, cases = chk.rng, []
     thorough = chk.tier == "thorough"
 
-    def add(stream, klb, fmt, mets, crashes, bt=False, ctl=None, num_epochs=False, jit=None):
+    def add(stream, klb, fmt, mets, crashes, bt=False, ctl=None, num_epochs=False, jit=None, **more):
         ctl = dict(ctl or {})
         if num_epochs:
-            ctl["num_epochs"] = len(mets)
+            ctl["num_epochs"] = len(mets) if num_epochs is True else int(num_epochs)
         cases.append({"klb": klb, "fmt": fmt, "bt": bt, "mets": [list(m) for m in mets], "ctl": ctl,
                       "crashes": list(crashes), "stream": stream})
         if jit is not None:
             cases[-1]["jit"] = [list(j) for j in jit]
+        cases[-1].update(more)
+        return cases[-1]
+
+    def history(n, style):
+        """validation (or, with best_is_train, training) metrics of n epochs"""
+        vals, lo = [], None
+        for i in range(n):
+            if style == "improving":
+                v = 60 - 3 * i - rng.randint(0, 2)
+            elif style == "worsening":
+                v = 4 + 3 * i + rng.randint(0, 2)
+            elif style == "ties":
+                v = rng.choice([8, 8, 12])
+            elif style == "dethrone":
+                # stretches of epochs that are not the best (ties with the best included), then a new best: the epoch
+                # that loses the title is then not the one before
+                v = rng.randint(40, 60) if lo is None else (lo - rng.randint(1, 3) if rng.random() < 0.35 else lo + rng.randint(0, 8))
+            else:
+                v = rng.randint(1, 40)
+            lo = v if lo is None else min(lo, v)
+            vals.append(v)
+        return vals
+
+    def mets_of(vals, bt):
+        if bt:
+            return [(v, rng.randint(1, 40)) for v in vals]
+        return [(rng.randint(1, 40) if rng.random() < 0.5 else v, v) for v in vals]
+
+    def removals(klb, fmt, bt, mets):
+        """generator's forecast (only used to place crash points / failing removals): per update of a crash-free
+        keep-last-and-best run, (number of calls before its first os.remove, number of os.remove calls)"""
+        _, _, em, eo = FMTS[fmt]
+        res, col = [], 0 if bt else 1
+        for e in range(1, len(mets) + 1):
+            def best(k):
+                return min(range(1, k + 1), key=lambda x: (mets[x - 1][col], x)) if k else 0
+            lb, cb = best(e - 1), best(e)
+            if cb != e and not (em and eo):
+                break                                   # ValueError: would overwrite the best checkpoint
+            if cb == e - 1 or not klb:
+                res.append((7, 0))
+                continue
+            old = set(x for x in ([e - 1] + ([lb] if lb != cb else [])) if x)
+            res.append((7, len(old) * (int(em) + int(eo))))
+        return res
 
     # (a) every single crash point of every update of every small history
     L = 4 if thorough else 3
@@ -682,21 +1075,12 @@ def gen_cases(chk):
     nrand = 4000 if thorough else 400
     for _ in range(nrand):
         n = rng.choice([1, 2, 3, 3, 4, 4, 5, 6, 7])
-        style = rng.choice(["any", "any", "improving", "ties", "worsening"])
-        vals = []
-        for i in range(n):
-            if style == "improving":
-                vals.append(40 - 3 * i - rng.randint(0, 2))
-            elif style == "worsening":
-                vals.append(4 + 3 * i + rng.randint(0, 2))
-            elif style == "ties":
-                vals.append(rng.choice([8, 8, 12]))
-            else:
-                vals.append(rng.randint(1, 40))
+        style = rng.choice(["any", "any", "improving", "ties", "worsening", "dethrone"])
+        vals = history(n, style)
         bt = rng.random() < 0.25
-        mets = [(rng.randint(1, 40) if bt or rng.random() < 0.5 else v, v) for v in vals]
+        mets = mets_of(vals, bt)
         klb = rng.random() < 0.55
-        fmt = rng.choice(["ep", "ep", "e2", "no", "mo", "om"])
+        fmt = rng.choice(["ep", "ep", "e2", "no", "mo", "om", "sd"])
         ctl = rng.choice(CTLS)
         ncr = rng.choice([0, 1, 1, 2, 2, 3, 4])
         per = 9
@@ -710,6 +1094,87 @@ def gen_cases(chk):
         if not ctl and rng.random() < 0.4:   # decisions of C15 (thresholds) stay on the grid: no jitter with a ctl
             jit = [(rng.choice([0, 0, -4, -2, -1, 1, 3]), rng.choice([0, 0, -4, -2, -1, 1, 3])) for _ in range(n)]
         add("random", klb, fmt, mets, crashes, bt=bt, ctl=ctl, num_epochs=rng.random() < 0.3, jit=jit)
+
+    def crash_list(n, ncr, per=9):
+        return [rng.randint(0, per) if rng.random() < 0.5 else rng.randint(0, per * n) for _ in range(ncr)]
+
+    # (d) the same logical runs, driven differently (all judged by PV.C16.Model.check like the plain ones): epoch given
+    #     explicitly (keyword / positional / every other call), update_cache() or add_entry again before each update,
+    #     two controllers taking turns, a controller kept alive as the observer over all restarts / one that never
+    #     called add_entry, a watching controller that loads after each completed update; num_epochs 1 / len / len-1;
+    #     every format incl. sub-directories; two-digit epochs
+    fmts = sorted(FMTS)
+    for i in range(1200 if thorough else 150):
+        n = 11 if i % 43 == 7 else rng.choice([1, 2, 3, 3, 4, 4, 5, 6])
+        bt = rng.random() < 0.4
+        mets = mets_of(history(n, rng.choice(["any", "dethrone", "dethrone", "ties", "improving", "worsening"])), bt)
+        ctl = rng.choice(CTLS) if rng.random() < 0.4 else {}
+        drv = {}
+        for key, val in (("ep", rng.choice([None, "kw", "pos", "mix"])), ("refresh", rng.choice([None, None, "uc", "ae"])),
+                         ("two", rng.random() < 0.3), ("obs", rng.choice([None, "kept", "noentry"])), ("watch", rng.random() < 0.3)):
+            if val:
+                drv[key] = val
+        if not drv:
+            drv["ep"] = "kw"
+        jit = None
+        if not ctl and rng.random() < 0.3:
+            jit = [(rng.choice([0, 0, -4, -2, -1, 1, 3]), rng.choice([0, 0, -4, -2, -1, 1, 3])) for _ in range(n)]
+        ne = rng.choice([False, False, True, 1, max(1, n - 1)])
+        add("driven", rng.random() < 0.6, fmts[i % len(fmts)], mets, crash_list(n, rng.choice([0, 1, 1, 2, 3])), bt=bt, ctl=ctl,
+            num_epochs=ne, jit=jit, drv=drv)
+
+    # (e) constructor without a state directory / without a history file / without both (judged against the plain run)
+    for i in range(400 if thorough else 48):
+        n = rng.choice([1, 2, 3, 4, 5])
+        bt = rng.random() < 0.4
+        mets = mets_of(history(n, rng.choice(["any", "dethrone", "ties", "worsening"])), bt)
+        nf = ["sd", "csv", "sd", "csv", "both", "sd"][i % 6]
+        c = add("no-files", rng.random() < 0.5, fmts[(i // 6) % len(fmts)], mets, [rng.randint(0, n) for _ in range(rng.choice([0, 1, 2]))] if nf == "sd" else [],
+                bt=bt, ctl=rng.choice(CTLS) if rng.random() < 0.4 else {}, num_epochs=rng.choice([False, True, 1]), kind="nofiles", nf=nf)
+        if rng.random() < 0.5:
+            c["drv"] = {"ep": rng.choice(["kw", "pos"])}
+
+    # (f) files the process may not delete: os.remove fails (PermissionError) for some calls of the clean-up
+    k = 0
+    for i in range(4000 if thorough else 400):
+        if k >= (300 if thorough else 30):
+            break
+        n = rng.choice([3, 4, 5, 6])
+        bt = rng.random() < 0.3
+        base = {"klb": True, "fmt": ["ep", "e2", "mo", "om", "sd"][i % 5], "bt": bt, "ctl": {},
+                "mets": mets_of(history(n, rng.choice(["any", "dethrone", "worsening"] if i % 5 in (0, 1, 4) else ["improving", "improving", "dethrone"])), bt)}
+        nrem = sum(r for _, r in removals(True, base["fmt"], bt, base["mets"]))
+        if not nrem:
+            continue
+        k += 1
+        add("remove-fails", True, base["fmt"], base["mets"], [], bt=bt, kind="remfault",
+            fault=sorted(set(rng.randrange(nrem) for _ in range(rng.choice([1, 1, 2, 3])))))
+
+    # (g) crash inside the clean-up (or anywhere), then - at every restart - delete_model_and_optimizer_for_epoch for all
+    #     recorded epochs but the last and the best one (possibly dying between its removals and done again), then go on:
+    #     judged by PV.C16.Spec with no known finding admitted (formats with {epoch})
+    for i in range(600 if thorough else 75):
+        klb = i % 5 != 4
+        n = rng.choice([3, 4, 5, 6])
+        bt = rng.random() < 0.3
+        base = {"klb": klb, "fmt": ["ep", "e2", "sd"][i % 3], "bt": bt, "ctl": {},
+                "mets": mets_of(history(n, rng.choice(["any", "dethrone", "dethrone", "worsening"])), bt)}
+        crashes = []
+        if klb:
+            off, spots = 0, []
+            for pre, r in removals(True, base["fmt"], bt, base["mets"]):
+                if r:
+                    spots.append((off + pre, off + pre + r - 1))
+                off += pre + r
+            if spots and rng.random() < 0.7:
+                crashes.append(rng.randint(*rng.choice(spots)))
+            else:
+                crashes.append(rng.randint(0, max(off - 1, 0)))
+            crashes += crash_list(n, rng.choice([0, 0, 1, 2]))
+        else:
+            crashes = crash_list(n, rng.choice([0, 1]))   # keep-all: two crashes in one epoch are K3
+        add("delete-between-restarts", klb, base["fmt"], base["mets"], crashes, bt=bt,
+            jan={"rev": rng.random() < 0.5, "crash": [rng.choice([None, None, 0, 1, 2]) for _ in range(len(crashes) + 1)]})
     return cases
 
 
@@ -751,6 +1216,20 @@ def _cands(case):
         c = dict(case)
         c["ctl"] = {}
         yield c
+    for key in sorted(case.get("drv") or {}):
+        c = dict(case)
+        c["drv"] = {k: v for k, v in case["drv"].items() if k != key}
+        if c["drv"] or not c.get("kind"):
+            yield c
+    if case.get("jan") and (case["jan"].get("rev") or any(x is not None for x in case["jan"].get("crash", []))):
+        c = dict(case)
+        c["jan"] = {"rev": False, "crash": []}
+        yield c
+    if len(case.get("fault") or []) > 1:
+        for x in case["fault"]:
+            c = dict(case)
+            c["fault"] = [y for y in case["fault"] if y != x]
+            yield c
     if case["bt"]:
         c = dict(case)
         c["bt"] = False
@@ -821,6 +1300,20 @@ def run(chk, cases=None):
         chk.count("crashes=%d" % len(c["crashes"]))
         chk.count("epochs=%d" % len(c["mets"]))
         chk.count("raw_metrics=" + ("off-grid(1e-8)" if c.get("jit") else "grid"))
+        chk.count("best_is_train=%s" % bool(c["bt"]))
+        chk.count("num_epochs=" + ("unset" if not c.get("ctl", {}).get("num_epochs") else "1" if c["ctl"]["num_epochs"] == 1 else
+                                   "len" if c["ctl"]["num_epochs"] >= len(c["mets"]) else "<len"))
+        for key, val in sorted((c.get("drv") or {}).items()):
+            chk.count("driven:%s=%s" % (key, val))
+        if c.get("kind") == "nofiles":
+            chk.count("constructor=" + {"sd": "csv only", "csv": "state_dir only", "both": "neither"}[c["nf"]])
+        if c.get("kind") == "remfault" and "error" not in out:
+            chk.count("undeletable files=%d" % len(out.get("stuck", [])))
+        if c.get("jan") and "error" not in out:
+            chk.count("deleted between restarts=%d epochs" % len(out["obs"][-1].get("deleted", [])))
+            if any(o["outcome"] == "Crashed" and o["log"] and o["log"][-1][0] and o["log"][-1][0][-1][0] in ("app", "rem")
+                   and len([op for op in o["log"][-1][0] if op[0] == "rep"]) == 2 for o in out["obs"]):
+                chk.count("crash inside a clean-up, then delete")
         if "error" in out:
             chk.count("outcome=harness-error")
         else:
@@ -891,12 +1384,13 @@ def _still_rejected(chk, case, group):
     out = run_impl(case, chk.workdir)
     if "error" in out or out.get("notes"):
         return False
-    if coq_eval_bools(chk.workdir, IMPORTS, [spec_term(case, out)], tag="shr")[0]:
+    sp, mo = coq_eval_bools(chk.workdir, IMPORTS, [spec_term(case, out), model_term(case, out)], tag="shr")
+    if sp:
         return False
     g = [q for q in failing_parts(chk, case, out) if q in group]
     if not g:
         return False
-    return chk.known_match(signature_fn, {"case": case, "impl": out, "failing_parts": g}) is None
+    return chk.known_match(signature_fn, {"case": case, "impl": out, "failing_parts": g, "model_agrees": mo}) is None
 
 
 def _disagrees(chk, case):
